@@ -250,6 +250,7 @@ type rig struct {
 	concurrent           bool                 // requests overlapped at some point in this rig's life
 	inline               bool                 // requests run on the caller's goroutine (parallel workers of cache.race)
 	followUpInconclusive bool
+	tailTrace            bool            // witness keeps the tail of a long history
 	gids                 map[uint64]bool // real-time build: goroutines that ran requests of this rig
 	dead                 bool            // a request never completed: the rig is abandoned, nothing more is sent
 }
@@ -657,6 +658,13 @@ func (g *rig) doInline(q *rq) {
 	}
 	g.mu.Lock()
 	if len(g.trace) < 80 {
+		g.trace = append(g.trace, q.String())
+	} else if g.tailTrace {
+		// long histories: keep the first 20 and the most recent 59 requests
+		if g.trace[20] != "..." {
+			g.trace[20] = "..."
+		}
+		g.trace = append(g.trace[:21], g.trace[22:]...)
 		g.trace = append(g.trace, q.String())
 	}
 	g.mu.Unlock()
